@@ -950,6 +950,8 @@ from mlmverif.selfcheck import B, OK  # noqa: E402
 
 _F = 'utils/iter_utils.py'
 VARIANTS = [
+    OK('class-level-immutable-default', 'utils/iter_utils.py',
+       "  ignore_error: bool\n\n  def __init__(\n", "  ignore_error: bool\n  _kind: str = 'iterator-queue'\n  _no_links: tuple = ()\n\n  def __init__(\n"),
     B('stop-links-in-a-class-attribute', 'utils/iter_utils.py',
       "  ignore_error: bool\n\n  def __init__(\n", "  ignore_error: bool\n  _stopped_with: list[types.Stoppable] = []\n\n  def __init__(\n", 'R-C13-18',
       extra=(('utils/iter_utils.py', "    self._stopped_with: list[types.Stoppable] = []\n", ""),)),
